@@ -105,7 +105,7 @@ def depth_map(scan, a, b):
 
 
 def _segment_regex(seg):
-    toks = re.findall(r"[A-Za-z_][A-Za-z0-9_]*|'[a-z_]+|\d+|::|->|=>|[^\sA-Za-z0-9_]", seg)
+    toks = re.findall(r"[A-Za-z0-9_]+|'[a-z_]+|::|->|=>|[^\sA-Za-z0-9_]", seg)
     parts = []
     for k, t in enumerate(toks):
         if k:
